@@ -68,6 +68,7 @@ func TestOnChangeMap(t *testing.T) {
 		regModified := rapid.IntRange(0, 4).Draw(rt, "regModified") != 0
 		regDeleted := rapid.IntRange(0, 4).Draw(rt, "regDeleted") != 0
 		h := newHist(check, fmt.Sprintf("callbacks(changed=%v,added=%v,modified=%v,deleted=%v)", regChanged, regAdded, regModified, regDeleted))
+		defer h.guard(rt)
 
 		var log []string
 		failChanged, failItem := false, false
